@@ -653,6 +653,14 @@ func TestBlockFields(t *testing.T) {
 					fmt.Sprintf("a %s executor ACCEPTED block [%s] (validations by this executor so far: %v) although it differs from the genuine block, has the SAME block hash and is invalid (specified: refused, %s). BlockID changed=%v; uncached validateBlock accepts=%v",
 						mode, name, names, st.class, r.idChanged, r.refAccept), detail)
 				return
+			case realAccept && !specAccept && os.Getenv("BF_STRICT") == "1":
+				// C03's validity clause: the validator votes for and commits only valid extensions of its chain.  A block
+				// the specification refuses (wrong height / parent, last commit that does not verify against the PREVIOUS
+				// set, hashes differing from the own state, time other than the prescribed median) and the real
+				// validateBlock accepts is a violation of that clause whether or not its hash changed
+				res.Mismatch(pfx+"invalid-extension-accepted:"+name,
+					fmt.Sprintf("a %s executor ACCEPTED block [%s] (validations by this executor so far: %v); specified: refused, %s", mode, name, names, st.class), detail)
+				return
 			case realAccept && !specAccept:
 				mu.Lock()
 				laxer[name+" ("+mode+" executor; specified "+st.class+"; block hash changed)"]++
